@@ -478,6 +478,7 @@ class UnionMetaType(StructureMetaType):
             offset = 0
             buf = io.BytesIO(stream.read(cls.size))
 
+        end = offset
         for field in cls.__fields__:
             field_type = cls.cs.resolve(field.type)
 
@@ -490,6 +491,11 @@ class UnionMetaType(StructureMetaType):
 
             sizes[field._name] = buf.tell() - offset - start
             result[field._name] = value
+            end = max(end, buf.tell())
+
+        if cls.size is None:
+            # A dynamically sized union extends to the end of its largest member, not of its last one
+            buf.seek(end)
 
         return result, sizes
 
